@@ -90,16 +90,17 @@ func runCheck(eng *Engine, prop, tier, verif string, loadS float64, start time.T
 	if tier == "thorough" {
 		opts.quickS, opts.fullS = 10, 60
 	}
-	results := solveAll(vcs, opts)
-	sortResults(results)
-
 	known := loadKnown(verif)
 	knownIdx := map[string]KnownFinding{}
+	opts.quickOnly = map[string]bool{}
 	for _, k := range known {
 		if k.Property == prop && k.Status == "known" {
 			knownIdx[k.Obligation] = k
+			opts.quickOnly[k.Obligation] = true
 		}
 	}
+	results := solveAll(vcs, opts)
+	sortResults(results)
 
 	nObl, nDis, nCover, nCoverOK := 0, 0, 0, 0
 	byBackend := map[string]int{}
